@@ -440,9 +440,9 @@ def shards(tier):
     side = 8 if tier == "quick" else 10
     plan = [("terrain", terrain_cases, 3, 150), ("focal", focal_cases, 4, 110), ("classify", classify_cases, 2, 120),
             ("spectral", spectral_cases, 3, 120), ("gen", gen_cases, 1, 25)]
-    mult = 1 if tier == "quick" else 10
+    mult = 1 if tier == "quick" else 20
     for name, strat, nsh, per in plan:
-        for i in range(nsh):
+        for i in range(nsh if tier == "quick" else nsh + 1):
             out.append(("%s#%d" % (name, i), lambda ctx, strat=strat, per=per: drive_hypothesis(ctx, body_d, strat(side), per * mult)))
     if tier == "quick":
         eplan = [(3, f) for f in ("slope", "aspect", "curvature", "hillshade", "focal_apply", "convolution_2d", "hotspots")] + [(4, f) for f in ("slope", "focal_mean")]
